@@ -146,7 +146,7 @@ def lex_replay(c):
 
 def written_files(seed, n, tag, wd, small=True, **kw):
     """Generate writer workloads, run the real writer, return list of dict(id, o, calls, file, g)."""
-    g0 = gw.Gen(seed)
+    g0 = gw.Gen(seed, utf8_only=kw.get("utf8_only", False))
     cases = []
     for i in range(n):
         o = g0.wopts(**kw.get("force", {}))
